@@ -141,6 +141,7 @@ def _slice_iter(M, fr, n, a):
     return IterV(elem_refs(M, a[0]), 'ref')
 @reg(r'^<std::slice::Iter(Mut)?<.*> as std::iter::IntoIterator>::into_iter$|^<std::vec::IntoIter<.*> as std::iter::IntoIterator>::into_iter$|^<.* as std::iter::IntoIterator>::into_iter$')
 def _iter_ident(M, fr, n, a):
+    if isinstance(a[0], Agg) and a[0].name == '[]': return IterV(list(a[0].f))
     if isinstance(a[0], (IterV, Agg)): return a[0]
     raise Unsupported('into_iter of %r' % (a[0],))
 @reg(r'^core::slice::<impl \[.*\]>::first$')
@@ -292,6 +293,7 @@ def to_iter(M, fr, v):
     if isinstance(v, (IterV,)): return v
     if isinstance(v, Agg) and (v.name.startswith('it:') or v.name == 'Chars'): return v
     if isinstance(v, VecV): return IterV(v.items)
+    if isinstance(v, Agg) and v.name == '[]': return IterV(list(v.f))
     if isinstance(v, EnumV) and v.name == 'Option': return IterV([v.f[0]] if v.disc == 1 else [])
     if isinstance(v, Ref): return IterV(elem_refs(M, v), 'ref')
     raise Unsupported('into_iter of %r' % (v,))
@@ -758,7 +760,7 @@ def as_str(M, x):
     x = M.deref(x)
     if isinstance(x, (Str, SymStr)): return x
     raise Unsupported('not a string: %r' % (x,))
-@reg(r'^<str as std::string::ToString>::to_string$|^<std::string::String as std::convert::From<&str>>::from$|^<str as std::borrow::ToOwned>::to_owned$|^<std::string::String as std::clone::Clone>::clone$|^<std::string::String as std::convert::From<&std::string::String>>::from$|^std::str::<impl str>::to_string$|^<std::string::String as std::string::ToString>::to_string$|^<std::string::String as std::str::FromStr>::from_str$|^std::str::<impl str>::to_owned$|^<&str as std::string::ToString>::to_string$|^<std::string::String as std::convert::From<std::borrow::Cow<.*>>>::from$|^std::borrow::Cow::<.*>::into_owned$|^std::borrow::Cow::into_owned$|^std::str::<impl str>::into_string$|^<std::boxed::Box<str> as std::convert::From<.*>>::from$|^<std::string::String as std::convert::From<impl Into<String>>>::from$|^<std::string::String as std::convert::From<[A-Z]>>::from$')
+@reg(r'^<str as std::string::ToString>::to_string$|^<std::string::String as std::convert::From<&str>>::from$|^<str as std::borrow::ToOwned>::to_owned$|^<std::string::String as std::clone::Clone>::clone$|^<std::string::String as std::convert::From<&std::string::String>>::from$|^std::str::<impl str>::to_string$|^<std::string::String as std::string::ToString>::to_string$|^<std::string::String as std::str::FromStr>::from_str$|^std::str::<impl str>::to_owned$|^<&str as std::string::ToString>::to_string$|^<std::string::String as std::convert::From<std::borrow::Cow<.*>>>::from$|^std::borrow::Cow::<.*>::into_owned$|^std::borrow::Cow::into_owned$|^std::str::<impl str>::into_string$|^<std::boxed::Box<str> as std::convert::From<.*>>::from$|^<std::string::String as std::convert::From<impl Into<String>>>::from$|^<std::string::String as std::convert::From<[A-Z]>>::from$|^<std::borrow::Cow<.*str> as std::string::ToString>::to_string$|^<std::borrow::Cow<.*str> as std::clone::Clone>::clone$')
 def _str_owned(M, fr, n, a):
     v = as_str(M, a[0])
     r = Str(list(v.b)) if isinstance(v, Str) else v
@@ -921,11 +923,12 @@ def _split_once(M, fr, n, a):
         if M.branch(_match_at(s, i, p)):
             return some(Agg('()', [Ref(Cell(Str(s.b[:i]))), Ref(Cell(Str(s.b[i + len(p):])))]))
     return none()
-@reg(r'^core::str::<impl str>::trim$')
+@reg(r'^core::str::<impl str>::(trim|trim_start|trim_end)$')
 def _trim(M, fr, n, a):
     s = as_str(M, a[0]); c = s.conc()
     if c is None: raise Unsupported('trim of symbolic text')
-    return Ref(Cell(Str(c.strip())))
+    op = n.rsplit('::', 1)[1]
+    return Ref(Cell(Str({'trim': c.strip(), 'trim_start': c.lstrip(), 'trim_end': c.rstrip()}[op])))
 @reg(r'^core::str::<impl str>::is_char_boundary$')
 def _is_char_boundary(M, fr, n, a):
     s = as_str(M, a[0]); i = simp(a[1])
@@ -977,7 +980,7 @@ def _char_class(M, fr, n, a):
 def _char_eq(M, fr, n, a): return v_eq(D(M, a[0]), D(M, a[1]))
 
 # formatting: opaque (listed as stub)
-@reg(r'^std::fmt::format$|^alloc::fmt::format$|^std::fmt::Arguments::<\'_>::new|^std::fmt::Arguments::new|^core::fmt::rt::Argument::<\'_>::new_|^core::fmt::rt::Argument::new_|^core::fmt::rt::<impl std::fmt::Arguments<\'_>>::new|^std::fmt::Arguments::<\'_>::from_str|^core::fmt::rt::Placeholder::new$|^core::fmt::rt::UnsafeArg::new$')
+@reg(r'^std::fmt::format$|^alloc::fmt::format$|^std::fmt::Arguments::<\'_>::new|^std::fmt::Arguments::new|^core::fmt::rt::Argument::<\'_>::new_|^core::fmt::rt::Argument::new_|^core::fmt::rt::<impl std::fmt::Arguments<\'_>>::new|^std::fmt::Arguments::<\'_>::from_str|^core::fmt::rt::Placeholder::new$|^core::fmt::rt::UnsafeArg::new$|^std::fmt::Arguments::from_str$|^std::fmt::Arguments::new_const$|^std::fmt::Arguments::new_v1$')
 def _fmt(M, fr, n, a):
     if n.endswith('format'): return SymStr(M.fresh_bv('fmt', 32))
     return Opaque(('fmt', tuple(id(x) for x in a)))
